@@ -8,6 +8,7 @@ from prov.model import PROV_REC_CLS, ProvElement, ProvRelation
 
 CLASSES = [ProvElement, ProvRelation] + [PROV_REC_CLS[k] for k in PROV_REC_CLS]
 ABSENT = ["http://nowhere.example/absent", "urn:x:absent-1"]
+BARE = ["x", "e1", "b"]
 
 
 def same_objects(a, b):
@@ -122,6 +123,21 @@ class C18(Oracle):
                         raise Violation("C18", "lookup", "parent-record-returned-by-bundle",
                                         {"container": ch, "identifier": ident.uri, "spelling": label})
                 break
+        # bare local names: denote <default namespace in scope> + local, or nothing
+        d = c.get_default_namespace()
+        if d is None and c.is_bundle() and c.document is not None:
+            d = c.document.get_default_namespace()
+        for local in BARE:
+            got = c.get_record(local)
+            self.count("lookups_bare")
+            exp = [] if d is None else by_uri.get(d.uri + local, [])
+            if exp:
+                self.probe("bare_lookup_hit")
+            if not same_objects(list(got or []), exp):
+                raise Violation("C18", "lookup", "bare-local",
+                                {"container": ch, "local": local, "default": None if d is None else d.uri,
+                                 "got": len(got or []), "expected": len(exp)},
+                                {"spelling": "bare", "default": None if d is None else d.uri})
         for u in ABSENT:
             got = c.get_record(u)
             self.count("lookups_absent")
